@@ -185,4 +185,176 @@ theorem RInv0_annotate {root : Nat} (o : Opts) (n : Node) (r : Option Nat) (s : 
     · exact h
 
 
+/-! ### induction over the calls below a set closed under `recurse()` -/
+
+def ClosedUnder (g : Grammar) (D : Nat → Prop) : Prop :=
+  ∀ u n, D u → g[u]? = some n → ∀ c ∈ n.kids, D c
+
+theorem stepKid_inv_on (I : St → Prop) (rec : Rec) (ret c : Nat)
+    (hkw : ∀ s r kw, I s → I (s.setKw r kw))
+    (hrec : ∀ p i h s r s', I s → rec c p i h s = some (r, s') → I s') :
+    ∀ i s i' s', I s → stepKid rec ret c i s = some (i', s') → I s' := by
+  intro i s i' s' hI h
+  unfold stepKid at h
+  split at h
+  · exact absurd h (by simp)
+  · rename_i item s2 hr
+    have hI1 : I (addPlaceholder s ret i) := by
+      unfold addPlaceholder
+      split
+      · exact hkw _ _ _ hI
+      · exact hI
+    have hI2 : I s2 := hrec _ _ _ _ _ _ hI1 hr
+    split at h <;> simp only [Option.some.injEq, Prod.mk.injEq] at h <;> obtain ⟨_, rfl⟩ := h
+    · exact hkw _ _ _ hI2
+    · exact hkw _ _ _ hI2
+    · exact hI2
+    · exact hkw _ _ _ hI2
+    · exact hI2
+
+theorem loopKids_inv_on (I : St → Prop) (rec : Rec) (ret : Nat)
+    (hkw : ∀ s r kw, I s → I (s.setKw r kw)) :
+    ∀ kids, (∀ c ∈ kids, ∀ p i h s r s', I s → rec c p i h s = some (r, s') → I s') →
+      ∀ i s s', I s → loopKids rec ret kids i s = some s' → I s' := by
+  intro kids
+  induction kids with
+  | nil => intro _ i s s' hI h; simp [loopKids] at h; exact h ▸ hI
+  | cons c cs ih =>
+    intro hrec i s s' hI h
+    unfold loopKids at h
+    split at h
+    · exact absurd h (by simp)
+    · rename_i i' s1 hs
+      exact ih (fun c' hc' => hrec c' (List.mem_cons_of_mem _ hc')) _ _ _
+        (stepKid_inv_on I rec ret c hkw (hrec c (List.mem_cons_self ..)) _ _ _ _ hI hs) h
+
+theorem pre_pass_mem (g : Grammar) (o : Opts) (el : Nat) (n : Node) (p : Option Nat) (i : Nat)
+    (h : Option String) (s : St) (c : Nat) (h' : Option String)
+    (hp : pre g o el n p i h s = .pass c h') : c ∈ n.kids := by
+  unfold pre at hp
+  split at hp
+  · rename_i hpass
+    simp only [Pre.pass.injEq] at hp
+    obtain ⟨hc1, _⟩ := hp
+    rw [← hc1]
+    cases hkk : n.kids with
+    | nil => simp [isPass, hkk] at hpass
+    | cons a as => simp
+  · split at hp
+    · exact absurd hp (by simp)
+    · exact absurd hp (by simp)
+    · unfold preFresh at hp
+      split at hp
+      · exact absurd hp (by simp)
+      · split at hp <;> exact absurd hp (by simp)
+
+theorem conv_inv_on (g : Grammar) (o : Opts) (I : St → Prop) (D : Nat → Prop) (hD : ClosedUnder g D)
+    (hkw : ∀ s r kw, I s → I (s.setKw r kw))
+    (hret : ∀ el n p i h s r s', D el → g[el]? = some n → I s → pre g o el n p i h s = .ret r s' → I s')
+    (hloop : ∀ el n p i h s r s', D el → g[el]? = some n → I s → pre g o el n p i h s = .loop r s' → I s')
+    (hpost : ∀ el n h ret s, g[el]? = some n → I s → I (post el n h ret s).2)
+    (hann : ∀ n r s, I s → I (annotate o n r s).2) :
+    ∀ fuel el p i h s r s', D el → I s → conv g o fuel el p i h s = some (r, s') → I s' := by
+  intro fuel
+  induction fuel with
+  | zero => intro el p i h s r s' _ _ hc; simp [conv] at hc
+  | succ f ih =>
+    intro el p i h s r s' hDel hI hc
+    unfold conv at hc
+    cases hg : g[el]? with
+    | none => simp [hg] at hc; exact hc.2 ▸ hI
+    | some n =>
+      simp only [hg] at hc
+      cases hb : convBody g o (conv g o f) el n p i h s with
+      | none => simp [hb] at hc
+      | some rs =>
+        obtain ⟨r1, s1⟩ := rs
+        simp only [hb, Option.some.injEq] at hc
+        have e : (annotate o n r1 s1).2 = s' := by rw [hc]
+        refine e ▸ hann n r1 s1 ?_
+        unfold convBody at hb
+        cases hp : pre g o el n p i h s with
+        | ret r0 s0 =>
+          simp only [hp, Option.some.injEq, Prod.mk.injEq] at hb
+          exact hb.2 ▸ hret _ _ _ _ _ _ _ _ hDel hg hI hp
+        | pass c h' =>
+          simp only [hp] at hb
+          exact ih _ _ _ _ _ _ _ (hD el n hDel hg c (pre_pass_mem g o el n p i h s c h' hp)) hI hb
+        | loop ret s0 =>
+          simp only [hp] at hb
+          have hI0 := hloop _ _ _ _ _ _ _ _ hDel hg hI hp
+          cases hl : loopKids (conv g o f) ret n.kids 0 s0 with
+          | none => simp [hl] at hb
+          | some s2 =>
+            simp only [hl, Option.some.injEq] at hb
+            have hI1 := loopKids_inv_on I (conv g o f) ret hkw n.kids
+              (fun c hc p i h s r s' a b => ih c p i h s r s' (hD el n hDel hg c hc) a b) _ _ _ hI0 hl
+            have := hpost el n h ret s2 hg hI1
+            have e2 : (post el n h ret s2).2 = s1 := by rw [hb]
+            exact e2 ▸ this
+
+/-- below a closed set that does not contain the root, `RInv0` is kept -/
+theorem conv_RInv0_on (g : Grammar) (o : Opts) (root : Nat) (D : Nat → Prop) (hD : ClosedUnder g D)
+    (hroot : ¬ D root) :
+    ∀ fuel el p i h s r s', D el → RInv0 root s → conv g o fuel el p i h s = some (r, s') → RInv0 root s' :=
+  conv_inv_on g o (RInv0 root) D hD
+    (fun s r kw h => RInv0_tables h rfl rfl rfl)
+    (fun el n p i h s r s' _ _ hI hp => RInv0_pre_ret g o el n p i h s r s' hI hp)
+    (fun el n p i h s r s' hDel _ hI hp =>
+      RInv0_pre_loop g o el n p i h s r s' (fun e => hroot (e ▸ hDel)) hI hp)
+    (fun el n h ret s _ hI => RInv0_post el n h ret s hI)
+    (fun n r s hI => RInv0_annotate o n r s hI)
+
+/-- the first call, at a root that is registered and whose descendants do not contain it -/
+theorem conv_root_RInv0 (g : Grammar) (o : Opts) (fuel root : Nat) (n : Node) (pn : PNode)
+    (D : Nat → Prop) (hD : ClosedUnder g D) (hroot : ¬ D root)
+    (hg : g[root]? = some n) (hkids : ∀ c ∈ n.kids, D c) (hpass : isPass n = false)
+    (hv : (!n.shown && !o.showHidden) = false) (hd : dispatch g o n (nameOf n none) = some pn)
+    (r : Option Nat) (s' : St) (hc : conv g o fuel root none 0 none {} = some (r, s')) : RInv0 root s' := by
+  cases fuel with
+  | zero => simp [conv] at hc
+  | succ f =>
+    unfold conv at hc
+    have hp : ∃ r0, pre g o root n none 0 none {} = .loop r0 (register g {} root n none 0 pn).2 := by
+      have h2 : seenOf g {} root = .fresh := by
+        unfold seenOf
+        split <;> simp
+      unfold pre
+      simp only [hpass, h2, Bool.false_eq_true, if_false]
+      unfold preFresh
+      simp only [hv, hd, Bool.false_eq_true, if_false]
+      exact ⟨_, rfl⟩
+    obtain ⟨r0, hp⟩ := hp
+    have hI0 : RInv0 root (register g {} root n none 0 pn).2 := by
+      have hbase : RInv0 root (setL (({} : St).alloc pn).2 (({} : St).index + 1) root
+          { converted := ({} : St).heap.length, parent := none, parentIndex := 0, number := ({} : St).index + 1 }) := by
+        refine RInv0_setL' _ _ root _ ?_ ?_ (Or.inl rfl) ?_ (by omega) ⟨fun _ => rfl, fun h => absurd rfl h⟩
+        · intro u st hu; exact absurd hu (by simp [St.alloc])
+        · intro u d hu; exact absurd hu (by simp [St.alloc])
+        · simp [St.alloc]
+      unfold register
+      simp only
+      split
+      · exact RInv0_mark g _ root _ false hbase
+      · exact hbase
+    simp only [hg] at hc
+    cases hb : convBody g o (conv g o f) root n none 0 none {} with
+    | none => simp [hb] at hc
+    | some rs =>
+      obtain ⟨r1, s1⟩ := rs
+      simp only [hb, Option.some.injEq] at hc
+      have e : (annotate o n r1 s1).2 = s' := by rw [hc]
+      refine e ▸ RInv0_annotate o n r1 s1 ?_
+      unfold convBody at hb
+      simp only [hp] at hb
+      cases hl : loopKids (conv g o f) r0 n.kids 0 (register g {} root n none 0 pn).2 with
+      | none => simp [hl] at hb
+      | some s2 =>
+        simp only [hl, Option.some.injEq] at hb
+        have hI1 := loopKids_inv_on (RInv0 root) (conv g o f) r0 (fun s r kw h => RInv0_tables h rfl rfl rfl)
+          n.kids (fun c hc p i h s r s' a b => conv_RInv0_on g o root D hD hroot f c p i h s r s' (hkids c hc) a b)
+          _ _ _ hI0 hl
+        have e2 : (post root n none r0 s2).2 = s1 := by rw [hb]
+        exact e2 ▸ RInv0_post root n none r0 s2 hI1
+
 end PP.Diagram
